@@ -9,11 +9,11 @@ variable {α ε β : Type}
 
 /-! ### start state -/
 
-theorem init_facts (f : α → Except ε β) (args : List α) (workers : Nat) :
+theorem init_facts (run : List α → Except ε (List β)) (args : List α) (workers : Nat) :
     let cs := chunkSize args.length workers
     let tasks := getTasks cs args
     let mr : MapResult ε β := MapResult.init cs args.length
-    Uniform cs tasks ∧ tasks.flatten = args ∧ Rel f tasks cs mr (.ok []) ∧
+    Uniform cs tasks ∧ tasks.flatten = args ∧ Rel run tasks cs mr (.ok []) ∧
       mr.numberLeft = (tasks.length : Int) ∧ mr.ready = (mr.numberLeft == 0) := by
   intro cs tasks mr
   by_cases hn : args.length = 0
@@ -56,7 +56,27 @@ theorem init_facts (f : α → Except ε β) (args : List α) (workers : Nat) :
       simp
       omega
 
-/-- `poolRun` for every event list whose stored completions name existing chunks -/
+/-- `poolRunWith` for every event list whose stored completions name existing chunks -/
+theorem poolRunWith_spec (run : List α → Except ε (List β)) (hrun : LengthPreserving run) (args : List α)
+    (workers : Nat) (hw : 0 < workers) (ht : Bool) (evs : List Event)
+    (hvalid : ∀ i ∈ processed ht (numChunks args.length workers) evs, i < numChunks args.length workers) :
+    poolRunWith run args workers ht evs =
+      match interruption (ε := ε) ht (numChunks args.length workers) evs with
+      | some err => .raised err
+      | none =>
+        if (processed ht (numChunks args.length workers) evs).length < numChunks args.length workers
+        then .blocked
+        else outcomeOf run (getTasks (chunkSize args.length workers) args)
+          ((processed ht (numChunks args.length workers) evs).foldl
+            (track run (getTasks (chunkSize args.length workers) args)) (.ok [])) := by
+  obtain ⟨hU, _, hrel, hleft, hready⟩ := init_facts run args workers
+  have hm := tasks_length_eq_numChunks args workers hw
+  rw [hm] at hleft
+  have key := await_spec run hrun _ _ hU ht evs (numChunks args.length workers) _ _ hrel hleft hready
+    (by rw [hm]; exact hvalid)
+  unfold poolRunWith
+  exact key
+
 theorem poolRun_spec (f : α → Except ε β) (args : List α) (workers : Nat) (hw : 0 < workers)
     (ht : Bool) (evs : List Event)
     (hvalid : ∀ i ∈ processed ht (numChunks args.length workers) evs, i < numChunks args.length workers) :
@@ -66,16 +86,10 @@ theorem poolRun_spec (f : α → Except ε β) (args : List α) (workers : Nat) 
       | none =>
         if (processed ht (numChunks args.length workers) evs).length < numChunks args.length workers
         then .blocked
-        else outcomeOf f (getTasks (chunkSize args.length workers) args)
+        else outcomeOf (comprehension f) (getTasks (chunkSize args.length workers) args)
           ((processed ht (numChunks args.length workers) evs).foldl
-            (track f (getTasks (chunkSize args.length workers) args)) (.ok [])) := by
-  obtain ⟨hU, _, hrel, hleft, hready⟩ := init_facts f args workers
-  have hm := tasks_length_eq_numChunks args workers hw
-  rw [hm] at hleft
-  have key := await_spec f _ _ hU ht evs (numChunks args.length workers) _ _ hrel hleft hready
-    (by rw [hm]; exact hvalid)
-  unfold poolRun
-  exact key
+            (track (comprehension f) (getTasks (chunkSize args.length workers) args)) (.ok [])) :=
+  poolRunWith_spec (comprehension f) (comprehension_lengthPreserving f) args workers hw ht evs hvalid
 
 /-! ### schedules made of completions -/
 
@@ -86,6 +100,7 @@ theorem eq_map_done_of_all_done :
     rw [doneIdxs_done, List.map_cons, ← eq_map_done_of_all_done rest (fun ev hev => h ev (by simp [hev]))]
   | .timeout :: _, h => by have := h .timeout (by simp); simp [Event.isDone] at this
   | .died w :: _, h => by have := h (.died w) (by simp); simp [Event.isDone] at this
+  | .bystander p :: _, h => by have := h (.bystander p) (by simp); simp [Event.isDone] at this
 
 /-- a run of `ds.length ≤ left` completions is stored entirely; what follows is looked at with
     the remaining count -/
@@ -120,16 +135,16 @@ theorem comprehension_ok_all (f : α → Except ε β) :
 theorem outcome_complete (f : α → Except ε β) (tasks : List (List α)) (ds : List Nat)
     (hperm : ds.Perm (List.range tasks.length)) :
     (∀ l, comprehension f tasks.flatten = .ok l →
-      outcomeOf f tasks (ds.foldl (track f tasks) (.ok [])) = .returned (l.map some)) ∧
+      outcomeOf (comprehension f) tasks (ds.foldl (track (comprehension f) tasks) (.ok [])) = .returned (l.map some)) ∧
     (∀ e₀, comprehension f tasks.flatten = .error e₀ →
-      ∃ e, outcomeOf f tasks (ds.foldl (track f tasks) (.ok [])) = .raised (.task e) ∧
+      ∃ e, outcomeOf (comprehension f) tasks (ds.foldl (track (comprehension f) tasks) (.ok [])) = .raised (.task e) ∧
         ∃ a ∈ tasks.flatten, f a = .error e) := by
   have hmem : ∀ j, j < tasks.length → j ∈ ds := fun j hj =>
     hperm.mem_iff.mpr (List.mem_range.mpr hj)
   have hlt : ∀ j ∈ ds, j < tasks.length := fun j hj => List.mem_range.mp (hperm.mem_iff.mp hj)
-  cases hfold : ds.foldl (track f tasks) (.ok []) with
+  cases hfold : ds.foldl (track (comprehension f) tasks) (.ok []) with
   | ok D =>
-    obtain ⟨hok, hin, _⟩ := foldl_track_is_ok f tasks ds [] D hfold
+    obtain ⟨hok, hin, _⟩ := foldl_track_is_ok (comprehension f) tasks ds [] D hfold
     have hall : ∀ t ∈ tasks, ∃ r, comprehension f t = .ok r := by
       intro t ht
       obtain ⟨j, hj, rfl⟩ := List.getElem_of_mem ht
@@ -140,12 +155,12 @@ theorem outcome_complete (f : α → Except ε β) (tasks : List (List α)) (ds 
     · intro l hl
       rw [hr] at hl
       cases hl
-      simp only [outcomeOf, blocksOf_all f tasks D hD, hflat]
+      simp only [outcomeOf, blocksOf_all (comprehension f) tasks D hD, hflat]
     · intro e₀ he₀
       rw [hr] at he₀
       cases he₀
   | error e =>
-    obtain ⟨i, hi, t, hti, hte⟩ := foldl_track_is_error f tasks ds [] e hfold
+    obtain ⟨i, hi, t, hti, hte⟩ := foldl_track_is_error (comprehension f) tasks ds [] e hfold
     have htmem : t ∈ tasks := List.mem_of_getElem? hti
     obtain ⟨e', he'⟩ := flatten_error f tasks t e htmem hte
     refine ⟨?_, ?_⟩
@@ -165,7 +180,7 @@ theorem poolRun_complete (f : α → Except ε β) (args : List α) (workers : N
       ∃ e, poolRun f args workers ht (sched ++ rest) = .raised (.task e) ∧
         ∃ a ∈ args, f a = .error e) := by
   obtain ⟨hdone, hperm⟩ := hc
-  obtain ⟨_, hflat, _, _, _⟩ := init_facts (ε := ε) (β := β) f args workers
+  obtain ⟨_, hflat, _, _, _⟩ := init_facts (comprehension f) args workers
   have hm := tasks_length_eq_numChunks args workers hw
   have hsched := eq_map_done_of_all_done sched hdone
   have hlen : (doneIdxs sched).length = numChunks args.length workers := by
